@@ -16,7 +16,7 @@ RULE = ("cases = (generated table with one of 9 last-column shapes, subset of 1.
         "order, mode in {owning mode, sql}): every single clause x every last-column shape x both modes exhaustively, every ordered "
         "pair of compatible clauses, then seeded random subsets/orders; clause values are varied (formats, literals, numbers, "
         "column lists). Non-trivial = every case (each compares a with/without pair); distinct = distinct (DDL, mode).")
-RULE += (" Added after seeded defects: identifier-valued clause slots take tricky-vocabulary names, delimited operands and (after TABLESPACE) keyword-shaped words; single-class STORED AS INPUTFORMAT / OUTPUTFORMAT; the clauses the pinned tree reads after a LIKE body (CREATE TABLE t LIKE s / (LIKE s)) are also generated there; ORGANIZE BY COLUMN, CLUSTERED BY col without parentheses, an MSSQL body whose key constraint carries its own WITH (...) ON [filegroup].")
+RULE += (" Added after seeded defects: identifier-valued clause slots take tricky-vocabulary names, delimited operands and (after TABLESPACE) keyword-shaped words; single-class STORED AS INPUTFORMAT / OUTPUTFORMAT; the clauses the pinned tree reads after a LIKE body (CREATE TABLE t LIKE s / (LIKE s)) are also generated there; ORGANIZE BY COLUMN, CLUSTERED BY col without parentheses, an MSSQL body whose key constraint carries its own WITH (...) ON [filegroup], 0 and 1 as numeric operands.")
 ASSUMPTIONS = ["a LIKE body stands where the column list would be: clauses are generated after it only where the pinned tree reads them (deny-list NOT_AFTER_LIKE, plain operands)",
                "only clause combinations compatible within one dialect; order restricted where the dialect's own grammar fixes it (hql, oracle, mssql, bigquery, postgres, ibm_db2)",
                "calibrated placements: partitioned_by / partition_by / comment / tablespace are common fields (top level in both modes); snowflake retention/tracking options and spark USING live in table_properties in both modes",
@@ -39,7 +39,7 @@ def catalogue(rng):
     """dialect -> (ordered?, [clause choices per slot])  each slot is a list of alternatives; one alternative per slot is used"""
     fmt = rng.choice(["PARQUET", "ORC", "TEXTFILE", "AVRO"])
     loc = rng.choice(["'s3://b/p'", "'hdfs://nn/x/y'", "'/data/t'"])
-    n = rng.randint(2, 64)
+    n = rng.choice([0, 1, rng.randint(2, 64), rng.randint(2, 64)])      # zero is a value like any other
     lit = rng.choice(["'tc'", "'a table'", "'Sales 2024'"])
     ft = rng.choice(["'|'", "';'", "'$'"])
     eng = rng.choice(["InnoDB", "MyISAM", '"InnoDB"'])
